@@ -238,6 +238,10 @@ class Case:
         c.gname, c.entry, c.inputs, c.lr = desc.get("grammar"), desc.get("scenario"), desc.get("inputs", []), False
         c.I = S.Interner()
         c.serial, c.rows, c.learn_ok = None, None, False
+        # every thread parks BEFORE it enters its entry point: the schedule decides when a call begins (a thread that
+        # calls parse_string() while another one is in the middle of its parse is a different schedule from one that
+        # called it earlier and waits for the lock)
+        c.start_park = bool(desc.get("start_park", False))
         return c
 
     def learn_serial(self):
@@ -298,7 +302,7 @@ class Case:
             dumps(x) for x in (sz, self.table_sexp(), self.roots_sexp(), [Sym("gran"), Sym(gran)], extra))
 
     def forced(self, gran, sched=None, chooser=None):
-        with S.Session(self.pp, self.mode, self.I, gran=gran) as ses:
+        with S.Session(self.pp, self.mode, self.I, gran=gran, start_park=getattr(self, "start_park", False)) as ses:
             outs, status = ses.run_controlled(self.fns, sched=sched, chooser=chooser)
         return ses, outs, status
 
@@ -659,7 +663,7 @@ TAGGED_INPUTS = {"seq3": ["alpha", "beta", "gamma"], "backtrack": ["alpha", "bet
                  "groups": ["a", "1", "b", "c", "2"]}
 
 
-def tagged_case(pp, mode, gname, n, distinct=False):
+def tagged_case(pp, mode, gname, n, distinct=False, start_park=False):
     """n threads parse VALUE-EQUAL (but distinct) strings with a shared grammar whose actions tag every token with
     the calling thread's name (thread-local context): run alone, call t returns only T<t>:... tokens"""
     expr = tagged_grammars(pp)[gname]()
@@ -672,7 +676,8 @@ def tagged_case(pp, mode, gname, n, distinct=False):
             return outcome_of(pp, lambda: "res " + S.canon_results(expr.parse_string(s)))
         return fn
 
-    desc = {"scenario": "tagged", "grammar": gname, "inputs": inputs, "n": n, "distinct": distinct}
+    desc = {"scenario": "tagged", "grammar": gname, "inputs": inputs, "n": n, "distinct": distinct,
+            "start_park": start_park}
     return Case.custom(pp, mode, desc, [mk(t, s) for t, s in enumerate(inputs)]).learn_serial()
 
 
@@ -713,7 +718,8 @@ def pipeline_case(pp, mode, n_workers):
 
 def build_scenario(pp, case):
     if case["scenario"] == "tagged":
-        return tagged_case(pp, case["mode"], case["grammar"], case["n"], case.get("distinct", False))
+        return tagged_case(pp, case["mode"], case["grammar"], case["n"], case.get("distinct", False),
+                           case.get("start_park", False))
     if case["scenario"] == "pipeline":
         return pipeline_case(pp, case["mode"], case["n_workers"])
     raise ValueError(case["scenario"])
@@ -786,16 +792,19 @@ def leg_tagged(ctx, pp):
     for gname in tagged_grammars(pp):
         for mode in modes:
             for n, distinct in ((2, False), (3, False), (3, True)):
-                c = tagged_case(pp, mode, gname, n, distinct)
-                for first in range(n):
-                    ky = count_yields(c, first, "act")
-                    for k in range(1, ky + 1):
-                        if len(ctx.fail_inputs) >= 3:
-                            break
-                        ses, outs, status = c.forced("region", chooser=directed_chooser(first, k, "act"))
-                        c.check_outcomes(ctx, outs, status, {"gran": "region", "sched": list(ses.sched_done),
-                                                             "suspended": [first, k]}, stats)
-                        n_cases += 1
+                # start_park False: the other threads have already called parse_string() and wait for the lock in
+                # their entry reset_cache(); True: they CALL parse_string() while `first` is in the middle of its parse
+                for sp in (False, True):
+                    c = tagged_case(pp, mode, gname, n, distinct, start_park=sp)
+                    for first in range(n):
+                        ky = count_yields(c, first, "act")
+                        for k in range(1, ky + 1):
+                            if len(ctx.fail_inputs) >= 3:
+                                break
+                            ses, outs, status = c.forced("region", chooser=directed_chooser(first, k, "act"))
+                            c.check_outcomes(ctx, outs, status, {"gran": "region", "sched": list(ses.sched_done),
+                                                                 "suspended": [first, k]}, stats)
+                            n_cases += 1
     ctx.count_cases("oracle-tagged-actions", n_cases, outcomes=stats,
                     distinct_keys=[f"{g}|{m}" for g in tagged_grammars(pp) for m in modes],
                     samples=[{"scenario": "tagged", "grammar": "seq3", "n": 2, "suspended": [0, 1]}])
@@ -907,7 +916,8 @@ def replay(data):
                     not isinstance(o, list) or any(x != e for x in o) for o, e in zip(outs, c.serial)):
                 return True
         return False
-    with S.Session(pp, c.mode, c.I, gran=gran) as ses:
+    with S.Session(pp, c.mode, c.I, gran=gran, exprs=getattr(c, "g", {}).values() if hasattr(c, "g") else (),
+                   start_park=getattr(c, "start_park", False)) as ses:
         outs, status = ses.run_controlled(c.fns, sched=list(case["sched"]))
     print("serial  :", c.serial)
     print("threads :", outs, status)
